@@ -512,7 +512,7 @@ Definition verdict_is_coil_set_C11 (a : list val) (out : val) : N :=
    outcome = the recovered pattern (2 = lookup error) *)
 Definition run_coil_readback (a : list val) : val :=
   match a with
-  | [VB cs; VI s] =>
+  | [VB cs; VI s; VI _] =>     (* the third argument is the framing of the constructor used: same model *)
       let coils := bools_of cs in
       match new_wcoils 1 (zN s) coils with
       | Ok (RWCoils _ _ _ data) =>
@@ -528,11 +528,13 @@ Definition run_coil_readback (a : list val) : val :=
   end.
 Definition verdict_coil_readback_C11 (a : list val) (out : val) : N :=
   match a, out with
-  | [VB cs; VI s], VB got =>
+  | [VB cs; VI s; VI _], VB got =>
       if 65536 <? zN s + N.of_nat (length cs) then NOT_JUDGED else
       if list_eqb got (map (fun b => if b =? 0 then 0 else 1) cs) then HOLDS
       else if (8 <? length cs)%nat then 105 else VIOLATES
-  | _, VL [VI 3%Z] => NOT_JUDGED
+  | [VB cs; VI _; VI _], VL [VI 3%Z] =>
+      (* a pattern of 1..1968 coils that cannot even be written is not recovered *)
+      if (1 <=? length cs)%nat && (length cs <=? 1968)%nat then VIOLATES else NOT_JUDGED
   | _, _ => VIOLATES
   end.
 
